@@ -86,6 +86,12 @@ def entry_points():
               "get_draw_lines", "get_draw_rectangles", "get_draw_ellipses", "get_draw_connectors", "get_orphan_draw_connectors", "get_office_names"):
         add("body." + g, (lambda g: lambda d: getattr(d.body, g)())(g))
     add("body.get_tracked_changes", lambda d: d.body.get_tracked_changes())
+    add("body.get_variable_set_value", lambda d: [d.body.get_variable_set_value(v.name) for v in d.body.get_variable_sets()[:4]])
+    add("body.get_user_field_value", lambda d: [d.body.get_user_field_value(v.name) for v in d.body.get_user_field_decl_list()[:4]])
+    add("named ranges: values", lambda d: [(nr.name, nr.table_name, nr.crange, nr.start, nr.end, nr.usage) for nr in d.body.get_named_ranges()])
+    add("paragraphs: formatted twice", lambda d: [(p.get_formatted_text(), p.get_formatted_text()) for p in _first(d, "get_paragraphs", 8)])
+    add("headers: formatted twice", lambda d: [(h.get_formatted_text(), h.get_formatted_text()) for h in _first(d, "get_headers", 4)])
+    add("notes: formatted", lambda d: [n.get_formatted_text() for n in _first(d, "get_notes", 6)])
     add("body.get_paragraphs(content)", lambda d: d.body.get_paragraphs(content="a"))
     add("body.get_paragraphs(style)", lambda d: d.body.get_paragraphs(style="Standard"))
     add("body.get_paragraph(0)", lambda d: d.body.get_paragraph(position=0))
